@@ -113,19 +113,93 @@ def hostile_case22(rng):
     return bad, dict(frames=frames[-12:], n=n, dll='j1939-22')
 
 
+def hold_burst_case(rng):
+    """a burst of 'hold the connection' CTS frames for a session the stack opened, then silence: the session (and its session
+    number) is released within the standard's longest timeout after the LAST frame, however many hold frames there were"""
+    dll = rng.choice(['j1939-21', 'j1939-22', 'j1939-22'])
+    own, peer_a = rng.sample(range(1, 250), 2)
+    sc = net21.Scenario(C.REPO, rng.getrandbits(32), 2, dll=dll, maxcmdt=[rng.choice([1, 3, 255]), 255], addrs=[own, peer_a],
+                        latency=lambda r, a, b, f: r.choice([1, 1000]))
+    st = sc.stacks[0]
+    d = st.ecu.j1939_dll
+    sc.send(0, 0, 208, 0x77, 6, rand_payload(rng, rng.choice([61, 130, 200]) if dll == 'j1939-22' else rng.choice([9, 30])))
+    sc.net.run(rng.choice([0, 1000, 20000]))
+    n = rng.randrange(2, 14)
+    gaps = []
+    for _ in range(n):
+        if dll == 'j1939-22':
+            sess = next(iter(d._snd_buffer.values()))['session'] if d._snd_buffer else 0
+            cid = (7 << 26) | (0x4D << 16) | (own << 8) | 0x77
+            data = [1 | (sess << 4), 255, 255, 255, 1, 0, 0, 0, 0, 0x00, 0xD0, 0x00]
+        else:
+            cid = (7 << 26) | (0xEC << 16) | (own << 8) | 0x77
+            data = [17, 0, 1, 255, 255, 0x00, 0xD0, 0x00]
+        sc.net.inject(0, cid, data, 0)
+        g = rng.choice([0, 0, 1000, 50000, 200000, 400000])
+        gaps.append(g)
+        sc.net.run(g)
+    longest = 3_100_000 if dll == 'j1939-22' else 1_300_000
+    sc.net.run(longest - gaps[-1])
+    bad = []
+    if st.dead:
+        bad.append(f"background pass died: {type(st.dead).__name__}")
+    if not bad and (d._rcv_buffer or d._snd_buffer):
+        bad.append(f"{dll}: session still open {longest / 1e6} s after the last of {n} hold CTS frames: "
+                   f"snd {[(hex(k), b['state']) for k, b in d._snd_buffer.items()]}")
+    if not bad and dll == 'j1939-22' and (not all(d._J1939_22__rts_cts_session_list) or not all(d._J1939_22__bam_session_list)):
+        bad.append(f"session numbers lost after a hold burst: {d._J1939_22__rts_cts_session_list}")
+    return bad, dict(kind='hold-burst', dll=dll, n=n, gaps=gaps)
+
+
+def listener_case(rng):
+    """the same alphabet through the real bus listener (the caller there is python-can's receive thread, which ends for good
+    on an exception): nothing escapes `on_message_received`, and the stack still receives afterwards"""
+    import sys
+    import can
+    from .. import gen22
+    dll = rng.choice(['j1939-21', 'j1939-22'])
+    own, peer_a = rng.sample(range(1, 250), 2)
+    sc = net21.Scenario(C.REPO, rng.getrandbits(32), 2, dll=dll, maxcmdt=[255, 255], addrs=[own, peer_a], latency=lambda r, a, b, f: 1000)
+    st = sc.stacks[0]
+    L = sys.modules['j1939.electronic_control_unit'].MessageListener(st.ecu)
+    got = []
+    st.ecu.subscribe(lambda prio, pgn, sa, ts, data: got.append((pgn, sa, list(data))))
+    bad, frames = [], []
+    for _ in range(rng.randrange(1, 40)):
+        cid, data = (gen22.malformed_frame22(rng, own, [peer_a, 0x77]) if dll == 'j1939-22' else gen21.malformed_frame(rng, own, [peer_a, 0x77]))
+        data = [x & 255 for x in data][:64]
+        frames.append((hex(cid), data))
+        msg = can.Message(arbitration_id=cid & 0x1FFFFFFF, is_extended_id=True, data=bytearray(data), is_fd=len(data) > 8, timestamp=sc.w.now / 1e6,
+                          check=False)
+        try:
+            L.on_message_received(msg)
+        except Exception as e:        # noqa
+            bad.append(f"{dll}: {type(e).__name__} escaped the bus listener for frame {hex(cid)} {data}: the receive thread ends, nothing is received any more")
+            break
+        sc.net.run(rng.choice([0, 1000, 200000]))
+    if not bad:
+        got.clear()
+        L.on_message_received(can.Message(arbitration_id=0x18FECA00 | 0x55, is_extended_id=True, data=bytearray([1, 2, 3, 4, 5, 6, 7, 8]),
+                                          timestamp=sc.w.now / 1e6))
+        if (0xFECA, 0x55, [1, 2, 3, 4, 5, 6, 7, 8]) not in got:
+            bad.append(f"{dll}: a well-formed frame through the bus listener was not delivered afterwards: {got[:2]}")
+    return bad, dict(kind='listener', dll=dll, frames=frames[-8:])
+
+
 def oracle(ctx, full):
     rng = random.Random(ctx.seed * 7907 + 7)
     n = ctx.n(150, 5000, full)
     findings, evals, distinct, samples = [], 0, set(), []
     for _ in range(n):
         sub = random.Random(rng.getrandbits(48))
-        bad, desc = hostile_case22(sub) if evals % 3 == 2 else hostile_case(sub)
+        bad, desc = hold_burst_case(sub) if evals % 10 == 7 else listener_case(sub) if evals % 10 == 4 else \
+            hostile_case22(sub) if evals % 3 == 2 else hostile_case(sub)
         evals += 1
         distinct.add(C.struct_hash(desc))
         if len(samples) < 1:
             samples.append(desc)
         if bad:
-            findings.append(dict(signature=dict(family='hostile-frames', dll=desc['dll']), what=bad[0], scenario=desc, all=bad[:5]))
+            findings.append(dict(signature=dict(family=desc.get('kind', 'hostile-frames'), dll=desc['dll']), what=bad[0], scenario=desc, all=bad[:5]))
             break
     return dict(findings=findings, evaluations=evals, distinct_nontrivial=len(distinct), samples=samples,
                 rule="1..60 frames from the protocol-aware alphabet (TP.CM with every control byte, TP.DT, requests, claims, other PGNs; local, "
@@ -133,7 +207,9 @@ def oracle(ctx, full):
                      "real ECU with gaps from 0 to beyond each timeout while it also sends; then: pass alive, no spin, tables empty after 1.3 s, "
                      "a periodic timer exactly on its grid, two follow-up transfers delivered; every third case J1939-22: FD.TP.CM with every control "
                      "code / session / size / segment / request code, FD.TP.DT, multi-PG and other frames while the stack sends; then: pass alive, "
-                     "tables empty after 3.1 s, both session pools full, 8 + 4 sessions at once accepted and delivered")
+                     "tables empty after 3.1 s, both session pools full, 8 + 4 sessions at once accepted and delivered; every tenth case a burst of 2..13 "
+                     "'hold' CTS frames for an own session then silence: released within the longest timeout after the LAST frame; every tenth "
+                     "case the alphabet through the real bus listener: no exception escapes it and a well-formed frame is delivered afterwards")
 
 
 def replay(ctx, path):
